@@ -434,7 +434,11 @@ func driverMain(args []string) int {
 		"wall_s":      time.Since(start).Seconds(),
 		"violations":  nv,
 	}
-	if err := WriteJSON(filepath.Join(root, "evidence", id+".json"), ev); err != nil {
+	// VERIF_EVIDENCE_DIR is set only by the self-test scripts (mutants/, seeded/) so that runs against a
+	// deliberately broken tree do not overwrite the evidence of the real tree
+	evDir := env("VERIF_EVIDENCE_DIR", filepath.Join(root, "evidence"))
+	_ = os.MkdirAll(evDir, 0o755)
+	if err := WriteJSON(filepath.Join(evDir, id+".json"), ev); err != nil {
 		fmt.Fprintln(os.Stderr, "evidence:", err)
 		return 2
 	}
